@@ -11,6 +11,8 @@ the dense on-site matrices of the operators (to_numpy) only.  Observed through t
   rdm      rdm(psi, *sites): tr(rho * JW_k(matrix units)) for all / many units        vs  <psi| JW_N(matrix units) |psi>
   sample   sample(..., return_probabilities=True): each returned probability          vs  Born probability in the dense state
   algebra  on-site algebra of every predefined operator class in every symmetry (CAR, spin commutators, n = c+ c)
+  genhist  one Generator used repeatedly: gen.I() / mpo_from_latex / random_mps / random_mpo interleaved with in-place
+           edits (canonize_, truncate_, site assignment) of the objects it returned; every later result vs the dense truth
 
 The dense state is the one *observed* (to_tensor -> to_numpy over ops.space()), so the construction of the random
 states (random_mps / product superpositions / canonisation / scalar factors) is not trusted.
@@ -25,7 +27,7 @@ from vmon import groups as G
 from vmon import jw
 
 PROP = "C07"
-RULE = ("case = (kind in {mpo, latex, m1, m2, mn, rdm, sample, algebra}) x (operator family = predefined class x symmetry "
+RULE = ("case = (kind in {mpo, latex, m1, m2, mn, rdm, sample, algebra, genhist = Generator history with in-place edits of returned objects}) x (operator family = predefined class x symmetry "
         "x fermionic flag; 20 distinct, the two most sign-sensitive listed twice) x random structure: chain length 2..6 (7 in thorough), Hterm lists of 1-6 terms with "
         "positions of length 1-4 in arbitrary order with repetitions, operators drawn from the whole family incl. charged ones, "
         "int/float/complex amplitudes, equal total charge (labelled must-reject cases with mixed charge), random f_map, identity "
@@ -53,8 +55,9 @@ FAMS = (
     ("SpinlessFermions", "U1", {}), ("SpinfulFermions", "U1xU1xZ2", {}),      # the two most sign-sensitive families twice
 )
 LATEX_FAMS = tuple(i for i, f in enumerate(FAMS) if f[0] != "Qdit")
-# 17 entries: coprime with the shard counts (8 / 16), so every shard sees every kind and every family
-KINDS = ("mpo", "m2", "mpo", "mn", "latex", "m1", "mpo", "rdm", "m2", "mpo", "sample", "mn", "mpo", "algebra", "m2", "latex", "m1")
+# 19 entries: coprime with the shard counts (8 / 16), so every shard sees every kind and every family
+KINDS = ("mpo", "m2", "mpo", "mn", "latex", "m1", "mpo", "rdm", "m2", "mpo", "sample", "mn", "mpo", "algebra", "m2", "latex", "m1",
+         "genhist", "genhist")
 
 NAMES = {
     "Spin12": ("I", "x", "y", "iy", "z", "sx", "sy", "isy", "sz", "sp", "sm"),
@@ -105,10 +108,13 @@ def floors(tier):
             "mpo_amp_style:wide": 15 * k, "mpo_amp_style:zeros": 15 * k, "mpo_amp_style:tiny": 8 * k, "mpo_amp_style:huge": 8 * k,
             "mpo_amp_style:tiny-imag": 8 * k, "mpo_nontruncating": 30 * k, "mpo_zero_amplitude_cases": 10 * k,
             "mpo_all_optional_omitted": 20 * k, "terms_identity": 15 * k, "mpo_no_terms": 4 * k, "state_site_scaled": 50 * k,
-            "m1_sites_empty": 4 * k, "m1_site0_int": 4 * k, "mn_no_operators": 3 * k, "mn_sites_omitted_rejected": 1 * k,
-            "m2_empty_pairs": 3 * k, "m2_empty_dict": 2 * k, "sample_call:defaults": 6 * k, "sample_call:number=0": 3 * k,
-            "sample_configs_checked": 10 * k, "latex_params:zero": 8 * k, "latex_params:wide": 8 * k,
-            "latex_ctor:ctor-all": 4 * k, "latex_ctor:ctor-overridden": 4 * k}
+            "m1_sites_empty": 3 * k, "m1_site0_int": 4 * k, "mn_no_operators": 3 * k, "mn_sites_omitted_rejected": 1 * k,
+            "m2_empty_pairs": 2 * k, "m2_empty_dict": 2 * k, "sample_call:defaults": 4 * k, "sample_call:number=0": 3 * k,
+            "sample_configs_checked": 10 * k, "latex_params:zero": 8 * k, "latex_params:wide": 6 * k,
+            "latex_ctor:ctor-all": 4 * k, "latex_ctor:ctor-overridden": 4 * k,
+            # Generator histories
+            "genhist_cases": 60 * k, "generator_histories_with_inplace_edit_of_returned_I": 30 * k,
+            "genhist_latex_checks": 150 * k, "genhist_I_checks": 100 * k, "genhist_random_mps": 8 * k, "genhist_random_mpo": 8 * k}
 
 
 # ------------------------------------------------------------------ operator families
@@ -655,9 +661,8 @@ def latex_symbols(F, rng):
     return fer, spin
 
 
-def case_latex(ctx, F, rng, nprng):
-    import yastn.tn.mps as mps
-    N = draw_N(rng, F.d, 256, 6)
+def latex_map(rng, N):
+    """Site labelling of a Generator: (mapkind, perm, labels, map or None, label -> site)."""
     mapkind = rng.choice(("none", "none", "str", "perm", "tuple", "perm-str"))
     perm = list(range(N))
     if mapkind.startswith("perm"):
@@ -670,6 +675,12 @@ def case_latex(ctx, F, rng, nprng):
         labels = [(str(i), "A") for i in range(N)]
     mp = None if mapkind == "none" else {l: perm[i] for i, l in enumerate(labels)}
     S = (lambda l: l) if mp is None else (lambda l: mp[l])
+    return mapkind, perm, labels, mp, S
+
+
+def latex_problem(F, rng, nprng, N, labels, S, mapkind):
+    """Random parameter set + all templates applicable to the family, each with our own expansion into
+    (amplitude, [(operator name, label), ...]) terms.  Returns (P, templates, sites, NN, pstyle)."""
     sites = list(labels)
     if rng.random() < 0.4:
         rng.shuffle(sites)
@@ -736,6 +747,14 @@ def case_latex(ctx, F, rng, nprng):
                           [(0.5, [(CP, a), (C, b)]), (2.0, [(CP, b), (C, a)]), (-1.0, [(Nn, b), (Nn, a)])]))
         templates.append(("literal-4", rf"{CP}_{{{b}}} {C}_{{{a}}} {CP}_{{{a}}} {C}_{{{b}}}",
                           [(1.0, [(CP, b), (C, a), (CP, a), (C, b)])]))
+    return P, templates, sites, NN, pstyle
+
+
+def case_latex(ctx, F, rng, nprng):
+    import yastn.tn.mps as mps
+    N = draw_N(rng, F.d, 256, 6)
+    mapkind, perm, labels, mp, S = latex_map(rng, N)
+    P, templates, sites, NN, pstyle = latex_problem(F, rng, nprng, N, labels, S, mapkind)
     tname, H_str, tlist = rng.choice(templates)
     none_params = tname.startswith("literal") and rng.random() < 0.25
     wit = {"family": F.tag, "N": N, "template": tname, "H_str": H_str, "map": mapkind, "perm": perm,
@@ -793,6 +812,132 @@ def case_latex(ctx, F, rng, nprng):
         ctx.count("string_sensitive")
         ctx.count("latex_string_sensitive")
     ctx.case(sig, nz, wit)
+
+
+# ------------------------------------------------------------------ Generator histories
+
+def case_genhist(ctx, F, rng, nprng):
+    """One Generator object used repeatedly.  Objects it returned (gen.I(), MPOs, random states) are edited in place by
+    the caller; every later gen.mpo_from_latex(...) must still be the dense truth and gen.I() the dense identity."""
+    import yastn
+    import yastn.tn.mps as mps
+    N = draw_N(rng, F.d, 64, 6)
+    mapkind, perm, labels, mp, S = latex_map(rng, N)
+    gen = mps.Generator(N, F.ops, **({} if mp is None else {"map": dict(mp)}))
+    M, spaces, Id = F.model(N), [F.space] * N, np.eye(F.d ** N)
+    count_flavour(ctx, F)
+    history, kept = [], []
+    edited_I = edited_any = False
+    checks_after_I_edit = 0
+    nz = False
+
+    def tag():
+        return ":after-inplace-edit-of-returned-I" if edited_I else (":after-inplace-edit-of-returned-object" if edited_any else ":history")
+
+    def edit_in_place(obj, what):
+        """A legal in-place use of an object the generator handed out."""
+        ops_done = []
+        for _ in range(rng.randint(1, 2)):
+            e = rng.choice(("canonize", "canonize", "canonize-nonorm", "site-scale", "truncate", "canonize-both"))
+            if e == "canonize":
+                obj.canonize_(to=rng.choice(("first", "last")))
+            elif e == "canonize-nonorm":
+                obj.canonize_(to=rng.choice(("first", "last")), normalize=False)
+            elif e == "canonize-both":
+                obj.canonize_(to="last").canonize_(to="first")
+            elif e == "site-scale":
+                n0 = rng.randrange(N)
+                obj[n0] = rng.choice((0.5, -2.0, 3.0, 1e-3)) * obj[n0]
+            else:
+                obj.canonize_(to="first", normalize=False)
+                obj.truncate_(to="last", opts_svd={"D_total": rng.choice((1, 2)), "tol": 1e-12}, normalize=rng.random() < 0.5)
+            ops_done.append(e)
+        history.append(f"edit {what}: " + "+".join(ops_done))
+
+    def check_I(where):
+        nonlocal checks_after_I_edit
+        I = gen.I()
+        got = jw.mpo_matrix(I, spaces) if len(I) == N else np.zeros((0, 0))
+        cmp_matrix(ctx, "value:Generator.I" + tag(), "Generator.I", got, Id, 1e-13, {**wit(), "at": where})
+        ctx.count("genhist_I_checks")
+        if edited_I:
+            checks_after_I_edit += 1
+        return I
+
+    def wit():
+        return {"family": F.tag, "N": N, "map": mapkind, "perm": perm, "history": list(history)}
+
+    def check_latex():
+        nonlocal nz, checks_after_I_edit
+        P, templates, sites, NN, pstyle = latex_problem(F, rng, nprng, N, labels, S, mapkind)
+        tname, H_str, tlist = rng.choice(templates)
+        history.append(f"mpo_from_latex {tname} ({pstyle})")
+        H = gen.mpo_from_latex(H_str, dict(P))
+        dense_terms = [(a, F.factors([nm for nm, _ in fs], [S(l) for _, l in fs])) for a, fs in tlist]
+        exp = M.sum_terms(dense_terms)
+        scale = sum(abs(a) * float(np.prod([F.opnorm[nm] for nm, _ in fs])) for a, fs in tlist)
+        got = jw.mpo_matrix(H, spaces)
+        cmp_matrix(ctx, "value:mpo_from_latex" + tag(), "mpo_from_latex", got, exp, TOL_MPO * scale,
+                   {**wit(), "H_str": H_str, "sites": sites, "NN": NN})
+        ctx.count("genhist_latex_checks")
+        ctx.count("latex_template:" + tname)
+        if edited_I:
+            checks_after_I_edit += 1
+        if scale > 0 and np.max(np.abs(exp)) > 1e-9 * scale:
+            nz = True
+            ctx.count("nonzero_references")
+            if F.fermionic and np.max(np.abs(exp - F.model(N, bosonic=True).sum_terms(dense_terms))) > 1e-7 * scale:
+                ctx.count("string_sensitive")
+        return H
+
+    steps = [rng.choice(("I-edit", "I-edit", "latex", "latex", "latex-edit", "random_mps", "random_mpo", "I-keep"))
+             for _ in range(rng.randint(3, 6))]
+    if "I-edit" not in steps and rng.random() < 0.7:
+        steps.insert(rng.randrange(len(steps)), "I-edit")
+    if rng.random() < 0.5:
+        steps.insert(0, "latex")
+    for st in steps:
+        if st == "I-edit":
+            rho = check_I("before edit")
+            edit_in_place(rho, "gen.I()")
+            kept.append(rho)
+            edited_I = edited_any = True
+        elif st == "I-keep":
+            kept.append(check_I("keep"))
+            history.append("gen.I() kept")
+        elif st == "latex":
+            kept.append(check_latex())
+        elif st == "latex-edit":
+            H = check_latex()
+            edit_in_place(H, "returned MPO")
+            kept.append(H)
+            edited_any = True
+        else:
+            F.cfg.backend.random_seed(rng.randrange(2 ** 31))
+            try:
+                if st == "random_mps":
+                    obj = gen.random_mps(n=(None if F.sym == "dense" else rng.choice(sorted(reachable(F, N)))), D_total=rng.choice((2, 4)))
+                else:
+                    obj = gen.random_mpo(D_total=rng.choice((2, 4)))
+            except yastn.YastnError as e:         # documented: random state may come out as the zero state
+                if "zero state" not in str(e):
+                    raise
+                ctx.count("random_mps_zero_state")
+                history.append(st + " (zero state)")
+                continue
+            history.append(st)
+            ctx.count("genhist_" + st)
+            if len(obj) != N:
+                ctx.violation("shape:Generator." + st, f"{st} has {len(obj)} sites, expected {N}", wit())
+            edit_in_place(obj, st)
+            kept.append(obj)
+            edited_any = True
+    check_latex()
+    check_I("end")
+    ctx.count("genhist_cases")
+    if checks_after_I_edit:
+        ctx.count("generator_histories_with_inplace_edit_of_returned_I")
+    ctx.case(("genhist", F.tag, N, mapkind, tuple(h.split(" (")[0] for h in history)), nz, wit())
 
 
 # ------------------------------------------------------------------ measurements
@@ -1466,7 +1611,7 @@ def case_algebra(ctx, F, rng, nprng):
 
 # ------------------------------------------------------------------ driver hooks
 
-CASES = {"mpo": case_mpo, "latex": case_latex, "m1": case_m1, "m2": case_m2, "mn": case_mn, "rdm": case_rdm,
+CASES = {"genhist": case_genhist, "mpo": case_mpo, "latex": case_latex, "m1": case_m1, "m2": case_m2, "mn": case_mn, "rdm": case_rdm,
          "sample": case_sample, "algebra": case_algebra}
 
 
@@ -1474,7 +1619,7 @@ def run_case(ctx, idx):
     rng, nprng = ctx.rng(idx), ctx.nprng(idx)
     kind = KINDS[idx % len(KINDS)]
     fi = (idx // len(KINDS)) % len(FAMS)
-    if kind == "latex" and fi not in LATEX_FAMS:
+    if kind in ("latex", "genhist") and fi not in LATEX_FAMS:
         fi = LATEX_FAMS[(idx // len(KINDS)) % len(LATEX_FAMS)]
     F = Fam(fi, nprng)
     ctx.count("kind:" + kind)
